@@ -34,8 +34,10 @@ EXTENDS Integers, Sequences, FiniteSets
 CONSTANTS Timeout,            \* the notifier's own `timeout:` when configured
           SlowDelay,          \* "slow": 2xx after this long (< Timeout)
           HangDelay,          \* "hangT": 2xx only after this long (> Timeout)
-          TimeoutRecoverable  \* TRUE: the code as read.  FALSE: a notifier that reports an attempt cut by its
+          TimeoutRecoverable, \* TRUE: the code as read.  FALSE: a notifier that reports an attempt cut by its
                               \* OWN timeout as unrecoverable (sanity run: the clauses must reject it)
+          BackoffGrows        \* TRUE: the code as read.  FALSE: a ticker whose interval never grows (every gap is
+                              \* drawn around the initial interval; sanity run: GapNotBelowBackoff must reject it)
 
 ASSUME 0 < SlowDelay /\ SlowDelay < Timeout /\ Timeout < HangDelay
 
@@ -93,7 +95,13 @@ ASSUME \A k \in 1 .. Len(GapHi) :
          /\ GapLo[k] = (250 * Pow(3, k - 1)) \div Pow(2, k - 1)
 HiAt(k) == GapHi[Min2(k, Len(GapHi))]
 LoAt(k) == GapLo[Min2(k, Len(GapLo))]
-Gaps(k) == {LoAt(k), HiAt(k)}          \* the extremes decide the number of attempts
+\* the extremes decide the number of attempts
+Gaps(k) == IF BackoffGrows THEN {LoAt(k), HiAt(k)} ELSE {LoAt(1), HiAt(1)}
+\* "retried with backoff": the gap after the k-th failed attempt is at least GapLo[k] (the
+\* library draws it from [0.5 I(k), 1.5 I(k)], never below).  The conformance harness judges
+\* this from the JudgedLoFrom-th gap on (843 ms and more: no longer explained by the first
+\* interval's own randomisation, 250 - 750 ms); earlier gaps below the bound are drift.
+JudgedLoFrom == 4
 
 -----------------------------------------------------------------------------
 (* Parameters and one attempt.                                             *)
@@ -169,6 +177,10 @@ RetriedUntilEnd(q, r) ==
     (SC(r.att[i]) = "rec" /\ r.att[i].end + HiAt(i) < EndOf(q))
       => (i < Len(r.att) /\ r.att[i + 1].start <= r.att[i].end + HiAt(i))
 NoAttemptAfterEnd(q, r) == \A i \in 1 .. Len(r.att) : r.att[i].start < EndOf(q)
+\* .. and not earlier than the back-off allows (counted from the start of the failed attempt)
+GapNotBelowBackoff(r, from) ==
+  \A i \in from .. (Len(r.att) - 1) :
+    SC(r.att[i]) = "rec" => r.att[i + 1].start - r.att[i].start >= LoAt(i)
 Succeeded(r)            == Len(r.att) > 0 /\ SC(Last(r.att)) = "ok"
 FailureReported(r)      == (r.res = "ok") <=> Succeeded(r)
 RecordedAfterSuccess(r) == r.logged = (IF Succeeded(r) THEN 1 ELSE 0)
@@ -178,6 +190,7 @@ ReturnsInTime(q, r) ==
   /\ (r.res = "ended" => r.ret = EndOf(q))
   /\ (r.res \in {"ok", "unrec"} => r.ret = Last(r.att).end)
 Clauses(q, r) == /\ NoRetryAfterUnrecoverable(r) /\ NoAttemptAfterSuccess(r) /\ RetriedUntilEnd(q, r)
+                 /\ GapNotBelowBackoff(r, 1)
                  /\ NoAttemptAfterEnd(q, r) /\ FailureReported(r) /\ RecordedAfterSuccess(r)
                  /\ ReturnsInTime(q, r)
 
